@@ -16,6 +16,19 @@ class TA(Agent):
         self.register_event_handler(["active", "other"], "note", self.on_msg)
     def on_msg(self, e):
         LOG.append((e.data, self.id, self.model.scheduler.current_round, self.model.scheduler.current_step))
+    def act(self, time, sim_round, step):
+        # scripted deletions from INSIDE a step: {global step: [(acting agent, agent it deletes)]}
+        for (actor, victim) in INSTEP.get((sim_round, step), []):
+            if actor == self.id:
+                self.model.delete_agent(victim)
+
+class TN(TA):
+    """an agent whose initialize() creates another agent: the child is appended to the model before its parent"""
+    def initialize(self):
+        TA.initialize(self)
+        self.model.create_agent("a", None)
+
+INSTEP = {}
 
 def run(case):
     """case: dict(n=steps per round, rounds, agents, ops=[(global_step, op...)])
@@ -25,6 +38,11 @@ def run(case):
     m = Model(scheduler=SimultaneousScheduler(), data_collector=DataCollector())
     m.run_specs(0, case["rounds"], dt)
     m.register_agent_factory("a", lambda i, mod, p: TA(i, mod, p))
+    m.register_agent_factory("n", lambda i, mod, p: TN(i, mod, p))
+    INSTEP.clear()
+    for o in case["ops"]:
+        if o[1] == "indelete":
+            INSTEP.setdefault((o[0] // n, o[0] % n), []).append((o[2], o[3]))
     for _ in range(case["agents"]):
         m.create_agent("a", None)
     live = set(range(case["agents"])); nxt = case["agents"]
@@ -47,6 +65,9 @@ def run(case):
                 m.delete_agent(op[2]); live.discard(op[2])
             elif k == "create":
                 m.create_agent("a", None); live.add(nxt); nxt += 1
+            elif k == "createn":
+                # the parent takes the id nxt, the child it creates in initialize() the id nxt + 1
+                m.create_agent("n", None); live.add(nxt); live.add(nxt + 1); nxt += 2
             elif k == "reconf":
                 # reconfiguration: all agents are replaced by op[2] new ones (ids are never reused)
                 m.configure_agents([{"name": "a", "count": op[2]}])
@@ -59,11 +80,21 @@ def run(case):
             m.scheduler.run_step(m, g // n, g % n, None, True)
         except Exception as e:
             return "step %d raised %s: %s" % (g, type(e).__name__, e)
+        # agents deleted from inside this step (by an agent that was itself still there): whether THEY still handled what was
+        # due now is left open, everybody else is held to the property
+        gone = set()
+        for (actor, victim) in INSTEP.get((g // n, g % n), []):
+            if actor in live and actor not in gone and victim in live:
+                gone.add(victim)
+        live -= gone
         # events due now must have been handled in this very step, by the addressed agent, if it is live
         for x in expected:
             if x[2] == g:
                 hits = [l for l in LOG if l[0] == x[0]]
-                if x[1] in live:
+                if x[1] in gone:
+                    if hits and (len(hits) != 1 or hits[0][1] != x[1]):
+                        return "event %r for agent %d (deleted during step %d) was handled %r" % (x[0], x[1], g, hits)
+                elif x[1] in live:
                     if len(hits) != 1:
                         return "event %r for agent %d due in step %d handled %d times: %r" % (x[0], x[1], g, len(hits), hits)
                     if hits[0][1] != x[1] or hits[0][2] * n + hits[0][3] != g:
@@ -80,7 +111,7 @@ def run(case):
                 return "agent %d handled same-step events in order %r" % (aid, plain)
     return None
 
-case = {'n': 2, 'rounds': 1, 'agents': 1, 'ops': [(0, 'send', 'd0', 1, 3, 'note', 1), (1, 'delete', 1), (2, 'create')]}
+case = {'n': 1, 'rounds': 2, 'agents': 2, 'ops': [(1, 'createn'), (2, 'send', 'p22', 2, None, 'msg', 0)]}
 bad = run(case)
 print("script:", case)
 print("FAIL: " + bad if bad else "PASS")
